@@ -883,8 +883,28 @@ class BeartypeConf(object):
             # If this method has already instantiated a configuration with these
             # parameters, return that configuration for consistency and
             # efficiency.
-            if conf_args in _beartype_conf_args_to_conf:
-                return _beartype_conf_args_to_conf[conf_args]
+            #
+            # Note that a cached configuration is returned *ONLY* if each of
+            # these parameters is of the same type as the parameter that
+            # configuration was instantiated with. Dictionary lookups compare by
+            # equality, under which invalid values masquerade as valid values
+            # (e.g., "is_debug=1" as "is_debug=True", "violation_verbosity=2" as
+            # "violation_verbosity=BeartypeViolationVerbosity.DEFAULT"). Such
+            # values would otherwise be silently accepted *ONLY* if an equal
+            # valid configuration had already been instantiated and rejected
+            # otherwise. Likewise, unhashable (and thus invalid) values raise
+            # "TypeError" on lookup and are instead validated below.
+            try:
+                beartype_conf = _beartype_conf_args_to_conf.get(conf_args)
+            except TypeError:
+                beartype_conf = None
+
+            if beartype_conf is not None and all(
+                type(conf_arg) is type(conf_arg_cached)
+                for conf_arg, conf_arg_cached in zip(
+                    conf_args, beartype_conf._conf_args)
+            ):
+                return beartype_conf
             # Else, this method has *NOT* yet instantiated a configuration with
             # these parameters. In this case, continue to do so and then cache
             # that configuration.
